@@ -88,6 +88,11 @@ CLAIMED["C18"]=dict(
    text="Exploration: 8k (quick) / 250k (thorough) types x widths {20,40,60,80,120,200} x contexts {type alias right-hand side, binding annotation}: functions and foralls in argument position, implicit arguments, applications, tuples, records with operator fields and row tails, effect rows, declared variants/records, module records with type fields (definitions compared too). One recorded known finding: a record type field whose definition is a variant is printed in a form the grammar rejects.",
    note="comparison is at parser level (names by last path component); generated sources the checker rejects are counted and skipped",
    ref="6 C18")
+CLAIMED["C20"]=dict(
+   technique="property-based testing / fuzzing of the editor queries: generated programs in complete, truncated and token-deleted form; every byte offset queried with all position queries on the (salvaged) typechecked tree; agreement oracle = the type the checker stored at each identifier occurrence and a lexical-scope model recomputed by the harness",
+   text="Exploration: 6k (quick) / 30k (thorough) programs x (1 + 6 (16) variants) x every byte offset x 8 queries (~10^8 queries in quick): no panic; on complete programs find at the first/middle/last byte of every identifier equals the checker's type for it, and no program binder is suggested where it is not lexically visible. Found and fixed: panics inside [] and on annotated expressions.",
+   note="the checker's type for an occurrence is read from the typed tree the checker produced; globals of the environment among the suggestions are not judged",
+   ref="6 C20")
 NOT_YET = {}
 def main():
     props=[json.loads(l) for l in open('/verif/properties.jsonl')]
